@@ -310,9 +310,9 @@ func init() {
 						b.Pre = map[string]byte{"unrelated/keep": 'f', "zzz": 'd'}
 						c06Case(c, b)
 						for i := range roots {
-							for _, kind := range []byte{'d', 'f', 'l'} {
-								if kind == 'l' && n > 3 {
-									continue // a root that exists as a symbolic link to a directory
+							for _, kind := range []byte{'d', 'f', 'l', 'L', 'X'} {
+								if (kind == 'l' || kind == 'L' || kind == 'X') && n > 3 {
+									continue // a root that exists as a symbolic link: to a directory, or dangling (to a name inside / outside the target)
 								}
 								b := base
 								b.Pre = map[string]byte{roots[i]: kind, "unrelated": 'd'}
